@@ -33,6 +33,50 @@ fn hex_le(bytes: &[u8]) -> String {
     hex_be(&v)
 }
 
+thread_local! {
+    static RANKS: std::cell::RefCell<Option<std::collections::HashMap<Vec<u8>, usize>>> = std::cell::RefCell::new(None);
+}
+/// Keys are printed either in full (big-endian integer of the bytes) or, to keep the Coq
+/// terms small, as their rank in the byte-lexicographic order of the history's key universe
+/// (an order isomorphism; the all-zero key — the key of an empty slot — is always rank 0).
+fn set_ranks<K>(keys: &[(K, Vec<u8>)], full: bool) {
+    RANKS.with(|r| {
+        if full {
+            *r.borrow_mut() = None;
+            return;
+        }
+        let mut bs: Vec<Vec<u8>> = keys.iter().map(|(_, b)| b.clone()).collect();
+        let zero = vec![0u8; bs[0].len()];
+        if !bs.contains(&zero) {
+            bs.push(zero);
+        }
+        bs.sort();
+        *r.borrow_mut() = Some(bs.into_iter().enumerate().map(|(i, b)| (b, i)).collect());
+    })
+}
+fn kz(bytes: &[u8]) -> String {
+    RANKS.with(|r| match &*r.borrow() {
+        Some(m) => match m.get(bytes) {
+            Some(i) => i.to_string(),
+            None => hex_be(bytes), // a key that was never supplied: printed in full (never a small number)
+        },
+        None => {
+            if bytes.len() <= 8 { let mut x = 0u64; for b in bytes { x = (x << 8) | *b as u64; } x.to_string() } else { hex_be(bytes) }
+        }
+    })
+}
+fn vz(bytes: &[u8]) -> String {
+    if bytes.len() <= 16 {
+        let mut x = 0u128;
+        for b in bytes.iter().rev() { x = (x << 8) | *b as u128; }
+        x.to_string()
+    } else if bytes[16..].iter().all(|b| *b == 0) {
+        vz(&bytes[..16])
+    } else {
+        hex_le(bytes)
+    }
+}
+
 fn err_code(e: &anchor_lang::error::Error) -> u32 {
     let name = match e {
         anchor_lang::error::Error::AnchorError(a) => a.error_name.clone(),
@@ -273,18 +317,22 @@ impl_fm!(TreasuryTokenMap, "treasury_TokenMap_16", 16, 32, TreasuryTokenConfig, 
 // ---- history generation ---------------------------------------------------------------
 fn oval(v: Option<Vec<u8>>) -> String {
     match v {
-        Some(b) => format!("(Some {})", hex_le(&b)),
+        Some(b) => format!("(Some {})", vz(&b)),
         None => "None".into(),
     }
 }
 
 fn rand_val(rng: &mut Rng, n: usize) -> Vec<u8> {
     let mut v = vec![0u8; n];
-    match rng.below(6) {
-        0 => {}
-        1 => v.iter_mut().for_each(|b| *b = 0xFF),
-        2 => v[0] = rng.below(256) as u8,
-        _ => v.iter_mut().for_each(|b| *b = rng.below(256) as u8),
+    match rng.below(24) {
+        0 | 1 => {}
+        2 => v.iter_mut().for_each(|b| *b = 0xFF),
+        3 => v.iter_mut().for_each(|b| *b = rng.below(256) as u8),
+        4 => v[n - 1] = 1 + rng.below(255) as u8,
+        _ => {
+            v[0] = rng.below(256) as u8;
+            if n > 1 && rng.chance(1, 2) { v[1] = rng.below(256) as u8; }
+        }
     }
     v
 }
@@ -298,7 +346,7 @@ fn dump<M: Fm>(m: &M) -> String {
         if i > 0 {
             s.push_str("; ");
         }
-        s.push_str(&format!("({}, {})", hex_be(&e[..M::KEY_LEN]), hex_le(&e[M::KEY_LEN..])));
+        s.push_str(&format!("({}, {})", kz(&e[..M::KEY_LEN]), vz(&e[M::KEY_LEN..])));
     }
     let c = &raw[raw.len() - 4..];
     let cnt = u32::from_le_bytes([c[0], c[1], c[2], c[3]]);
@@ -312,21 +360,41 @@ fn history<M: Fm>(rng: &mut Rng, max_ops: usize) {
     let extra = 1 + rng.below((cap as u64 / 4).max(2)) as usize;
     let keys = M::keys(rng, cap + extra);
     let nk = keys.len();
+    set_ranks(&keys, M::KEY_LEN <= 8 || (cap <= 32 && rng.chance(1, 4)));
     let mut m = M::new();
     let mut present: Vec<usize> = Vec::new(); // indices of keys currently in the map (driver's own bookkeeping)
-    let n_ops = if rng.chance(1, 6) { rng.range(1, 12) as usize } else { rng.range(max_ops as u64 / 3, max_ops as u64) as usize };
-    // phase: 0 = fill, 1 = churn (at/near full), 2 = drain
-    let mut phase = if rng.chance(3, 4) { 0 } else { 1 };
+    let n_ops = if rng.chance(1, 10) { rng.range(1, 12) as usize } else { rng.range(max_ops as u64 * 2 / 3, max_ops as u64) as usize };
+    // phase: 0 = fill (until full), 1 = churn at/near full (budgeted), 2 = drain (to a target size)
+    let free_mode = rng.chance(1, 8); // phases switch at random instead
+    let mut phase = if rng.chance(5, 6) { 0 } else { 1 };
+    let mut budget = 0usize;
+    let mut target = 0usize;
     let mut ops: Vec<String> = Vec::new();
     let mut panicked = false;
     let mut hit_full = false;
     let mut hit_full_remove = false;
     for _ in 0..n_ops {
-        if rng.chance(1, 40) {
-            phase = rng.below(3);
-        }
-        if phase == 0 && present.len() >= cap {
-            phase = 1;
+        if free_mode {
+            if rng.chance(1, 30) {
+                phase = rng.below(3);
+            }
+        } else {
+            match phase {
+                0 if present.len() >= cap => {
+                    phase = 1;
+                    budget = rng.range(4, (cap as u64 / 3).max(12)) as usize;
+                }
+                1 => {
+                    if budget == 0 {
+                        phase = if rng.chance(1, 2) { 2 } else { 0 };
+                        target = rng.below(cap as u64 / 2 + 1) as usize;
+                    } else {
+                        budget -= 1;
+                    }
+                }
+                2 if present.len() <= target => phase = 0,
+                _ => {}
+            }
         }
         let pick_present = |r: &mut Rng, p: &Vec<usize>| -> usize { if p.is_empty() { r.below(nk as u64) as usize } else { p[r.below(p.len() as u64) as usize] } };
         let pick_absent = |r: &mut Rng, p: &Vec<usize>| -> usize {
@@ -339,22 +407,22 @@ fn history<M: Fm>(rng: &mut Rng, max_ops: usize) {
             r.below(nk as u64) as usize
         };
         let w = rng.below(100);
-        let (w_ins, w_rem) = match phase { 0 => (70, 5), 1 => (35, 25), _ => (8, 55) };
+        let (w_ins, w_rem) = match phase { 0 => (80, 3), 1 => (40, 30), _ => (5, 70) };
         let line = if w < w_ins {
             // insert: new key mostly in fill phase; at full deliberately try new keys too
             let ki = if rng.chance(if phase == 0 { 9 } else { 5 }, 10) { pick_absent(rng, &present) } else { pick_present(rng, &present) };
             let v = rand_val(rng, M::VAL_LEN);
             let full_new = present.len() >= cap && !present.contains(&ki);
             if full_new { hit_full = true; }
-            if rng.chance(1, 8) {
+            if rng.chance(1, if full_new { 40 } else { 8 }) {
                 // plain insert (expect)
                 let r = no_panic(AssertUnwindSafe(|| m.insp(&keys[ki].0, &v)));
                 match r {
                     Some(o) => {
                         if !present.contains(&ki) { present.push(ki); }
-                        format!("(IInsP {} {}, ROpt {})", hex_be(&keys[ki].1), hex_le(&v), oval(o))
+                        format!("(IInsP {} {}, ROpt {})", kz(&keys[ki].1), vz(&v), oval(o))
                     }
-                    None => { panicked = true; format!("(IInsP {} {}, RPanic)", hex_be(&keys[ki].1), hex_le(&v)) }
+                    None => { panicked = true; format!("(IInsP {} {}, RPanic)", kz(&keys[ki].1), vz(&v)) }
                 }
             } else {
                 let new = rng.chance(1, 2);
@@ -362,10 +430,10 @@ fn history<M: Fm>(rng: &mut Rng, max_ops: usize) {
                 match r {
                     Some(Ok(o)) => {
                         if !present.contains(&ki) { present.push(ki); }
-                        format!("(IIns {} {} {}, RRes (Ok {}))", hex_be(&keys[ki].1), hex_le(&v), b(new), oval(o))
+                        format!("(IIns {} {} {}, RRes (Ok {}))", kz(&keys[ki].1), vz(&v), b(new), oval(o))
                     }
-                    Some(Err(e)) => format!("(IIns {} {} {}, RRes (Err {e}))", hex_be(&keys[ki].1), hex_le(&v), b(new)),
-                    None => { panicked = true; format!("(IIns {} {} {}, RPanic)", hex_be(&keys[ki].1), hex_le(&v), b(new)) }
+                    Some(Err(e)) => format!("(IIns {} {} {}, RRes (Err {e}))", kz(&keys[ki].1), vz(&v), b(new)),
+                    None => { panicked = true; format!("(IIns {} {} {}, RPanic)", kz(&keys[ki].1), vz(&v), b(new)) }
                 }
             }
         } else if w < w_ins + w_rem {
@@ -373,37 +441,37 @@ fn history<M: Fm>(rng: &mut Rng, max_ops: usize) {
             if present.len() >= cap && present.contains(&ki) { hit_full_remove = true; }
             let r = no_panic(AssertUnwindSafe(|| m.rem(&keys[ki].0)));
             match r {
-                Some(o) => { present.retain(|x| *x != ki); format!("(IRem {}, ROpt {})", hex_be(&keys[ki].1), oval(o)) }
-                None => { panicked = true; format!("(IRem {}, RPanic)", hex_be(&keys[ki].1)) }
+                Some(o) => { present.retain(|x| *x != ki); format!("(IRem {}, ROpt {})", kz(&keys[ki].1), oval(o)) }
+                None => { panicked = true; format!("(IRem {}, RPanic)", kz(&keys[ki].1)) }
             }
         } else {
             match rng.below(if cap > 100 { 40 } else { 14 }) {
                 0 | 1 | 2 | 3 => {
                     let ki = if rng.chance(1, 2) { pick_present(rng, &present) } else { pick_absent(rng, &present) };
                     match no_panic(AssertUnwindSafe(|| m.get(&keys[ki].0))) {
-                        Some(o) => format!("(IGet {}, ROpt {})", hex_be(&keys[ki].1), oval(o)),
-                        None => { panicked = true; format!("(IGet {}, RPanic)", hex_be(&keys[ki].1)) }
+                        Some(o) => format!("(IGet {}, ROpt {})", kz(&keys[ki].1), oval(o)),
+                        None => { panicked = true; format!("(IGet {}, RPanic)", kz(&keys[ki].1)) }
                     }
                 }
                 4 | 5 => {
                     let ki = if rng.chance(3, 4) { pick_present(rng, &present) } else { pick_absent(rng, &present) };
                     let v = rand_val(rng, M::VAL_LEN);
                     match no_panic(AssertUnwindSafe(|| m.set(&keys[ki].0, &v))) {
-                        Some(o) => format!("(ISet {} {}, ROpt {})", hex_be(&keys[ki].1), hex_le(&v), oval(o)),
-                        None => { panicked = true; format!("(ISet {} {}, RPanic)", hex_be(&keys[ki].1), hex_le(&v)) }
+                        Some(o) => format!("(ISet {} {}, ROpt {})", kz(&keys[ki].1), vz(&v), oval(o)),
+                        None => { panicked = true; format!("(ISet {} {}, RPanic)", kz(&keys[ki].1), vz(&v)) }
                     }
                 }
                 6 | 7 => {
                     let i = match rng.below(5) { 0 => 0, 1 => m.len(), 2 => m.len().wrapping_sub(1), 3 => cap, _ => rng.below(cap as u64 + 2) as usize };
                     let iz = if i == usize::MAX { "18446744073709551615".to_string() } else { i.to_string() };
                     match no_panic(AssertUnwindSafe(|| m.idx(i))) {
-                        Some(Some((k, v))) => format!("(IIdx {iz}, REnt (Some ({}, {})))", hex_be(&k), hex_le(&v)),
+                        Some(Some((k, v))) => format!("(IIdx {iz}, REnt (Some ({}, {})))", kz(&k), vz(&v)),
                         Some(None) => format!("(IIdx {iz}, REnt None)"),
                         None => { panicked = true; format!("(IIdx {iz}, RPanic)") }
                     }
                 }
                 8 => format!("(ILen, RLen {} {})", m.len(), b(m.is_empty())),
-                9 if rng.chance(1, 3) => {
+                9 if rng.chance(1, 12) => {
                     match no_panic(AssertUnwindSafe(|| m.clear())) {
                         Some(()) => { present.clear(); "(IClear, RUnit)".to_string() }
                         None => { panicked = true; "(IClear, RPanic)".to_string() }
@@ -414,7 +482,7 @@ fn history<M: Fm>(rng: &mut Rng, max_ops: usize) {
                     let mut s = String::from("(IEntries, RList [");
                     for (i, (k, v)) in es.iter().enumerate() {
                         if i > 0 { s.push_str("; "); }
-                        s.push_str(&format!("({}, {})", hex_be(k), hex_le(v)));
+                        s.push_str(&format!("({}, {})", kz(k), vz(v)));
                     }
                     s.push_str("])");
                     s
@@ -435,32 +503,33 @@ fn history<M: Fm>(rng: &mut Rng, max_ops: usize) {
 fn scripted<M: Fm>(rng: &mut Rng, remove_at: usize, plain_overflow: bool) {
     let cap = M::CAP;
     let keys = M::keys(rng, cap + 2);
+    set_ranks(&keys, M::KEY_LEN <= 8 || cap <= 32);
     let mut m = M::new();
     let mut ops = Vec::new();
     for i in 0..cap {
         let v = rand_val(rng, M::VAL_LEN);
         let r = m.ins(&keys[i].0, &v, true);
-        ops.push(format!("(IIns {} {} true, RRes ({}))", hex_be(&keys[i].1), hex_le(&v), match r { Ok(o) => format!("Ok {}", oval(o)), Err(e) => format!("Err {e}") }));
+        ops.push(format!("(IIns {} {} true, RRes ({}))", kz(&keys[i].1), vz(&v), match r { Ok(o) => format!("Ok {}", oval(o)), Err(e) => format!("Err {e}") }));
     }
     let mut panicked = false;
     if plain_overflow {
         let v = rand_val(rng, M::VAL_LEN);
         match no_panic(AssertUnwindSafe(|| m.insp(&keys[cap].0, &v))) {
-            Some(o) => ops.push(format!("(IInsP {} {}, ROpt {})", hex_be(&keys[cap].1), hex_le(&v), oval(o))),
-            None => { panicked = true; ops.push(format!("(IInsP {} {}, RPanic)", hex_be(&keys[cap].1), hex_le(&v))) }
+            Some(o) => ops.push(format!("(IInsP {} {}, ROpt {})", kz(&keys[cap].1), vz(&v), oval(o))),
+            None => { panicked = true; ops.push(format!("(IInsP {} {}, RPanic)", kz(&keys[cap].1), vz(&v))) }
         }
     }
     // remove the entry stored at sorted position `remove_at` while the map is full
     let target = m.idx(remove_at.min(cap - 1)).map(|(k, _)| k).unwrap();
     let ki = keys.iter().position(|(_, b)| *b == target).unwrap();
     match no_panic(AssertUnwindSafe(|| m.rem(&keys[ki].0))) {
-        Some(o) => ops.push(format!("(IRem {}, ROpt {})", hex_be(&keys[ki].1), oval(o))),
-        None => { panicked = true; ops.push(format!("(IRem {}, RPanic)", hex_be(&keys[ki].1))) }
+        Some(o) => ops.push(format!("(IRem {}, ROpt {})", kz(&keys[ki].1), oval(o))),
+        None => { panicked = true; ops.push(format!("(IRem {}, RPanic)", kz(&keys[ki].1))) }
     }
     ops.push(format!("(IDump, {})", dump(&m)));
     let v = rand_val(rng, M::VAL_LEN);
     let r = m.ins(&keys[cap + 1].0, &v, true);
-    ops.push(format!("(IIns {} {} true, RRes ({}))", hex_be(&keys[cap + 1].1), hex_le(&v), match r { Ok(o) => format!("Ok {}", oval(o)), Err(e) => format!("Err {e}") }));
+    ops.push(format!("(IIns {} {} true, RRes ({}))", kz(&keys[cap + 1].1), vz(&v), match r { Ok(o) => format!("Ok {}", oval(o)), Err(e) => format!("Err {e}") }));
     ops.push(format!("(IDump, {})", dump(&m)));
     emit(&format!("{}/scripted_{}", M::NAME, if panicked { "panic" } else { "full_remove_reinsert" }), &format!("Hist {} [{}]", cap, ops.join("; ")));
 }
@@ -490,18 +559,18 @@ fn main() {
             8..=11 => history::<own::K1U8x3>(&mut rng, 40),
             12..=16 => history::<own::K1U8x4>(&mut rng, 50),
             17..=21 => history::<own::K8U64x5>(&mut rng, 60),
-            22..=26 => history::<own::StrU128x32>(&mut rng, 160),
-            27..=31 => history::<own::PkU64x32>(&mut rng, 160),
-            32..=35 => history::<own::PkU32x64>(&mut rng, 300),
-            36..=39 => history::<RoleMap>(&mut rng, 160),
-            40..=43 => history::<Members>(&mut rng, 300),
-            44..=47 => history::<DisabledMap>(&mut rng, 300),
-            48..=51 => history::<TokenBalances>(&mut rng, 100),
-            52..=54 => history::<TreasuryTokenMap>(&mut rng, 100),
-            55..=57 => history::<GlvMarkets>(&mut rng, 420),
-            58..=59 => history::<Tokens>(&mut rng, 1000),
-            60..=61 => history::<PriceMap>(&mut rng, 1800),
-            _ => history::<own::PkU8x512>(&mut rng, 1800),
+            22..=26 => history::<own::StrU128x32>(&mut rng, 140),
+            27..=31 => history::<own::PkU64x32>(&mut rng, 140),
+            32..=35 => history::<own::PkU32x64>(&mut rng, 240),
+            36..=39 => history::<RoleMap>(&mut rng, 140),
+            40..=43 => history::<Members>(&mut rng, 240),
+            44..=47 => history::<DisabledMap>(&mut rng, 240),
+            48..=51 => history::<TokenBalances>(&mut rng, 90),
+            52..=54 => history::<TreasuryTokenMap>(&mut rng, 90),
+            55..=57 => history::<GlvMarkets>(&mut rng, 330),
+            58..=59 => history::<Tokens>(&mut rng, 800),
+            60..=61 => history::<PriceMap>(&mut rng, 1500),
+            _ => history::<own::PkU8x512>(&mut rng, 1500),
         }
     }
 }
